@@ -131,7 +131,12 @@ func (r *constReader) Read(p []byte) (int, error) {
 
 type gCase struct {
 	ID   string `json:"id"`
-	Mode string `json:"mode"` // parrot | fingerprint | constrand
+	// parrot | fingerprint | constrand: every connection gets its own spec (selected by ID / imported afresh);
+	// reuse-id | reuse-fp | reuse-custom: ONE ClientHelloSpec object (from UTLSIdToSpec / from FingerprintClientHello of a
+	// captured hello / UTLSIdToSpec with every GREASE placeholder replaced by another 0x?A?A value) is applied with
+	// HelloCustom+ApplyPreset to n successive connections (ApplyPreset writes into the spec's extension objects);
+	// twice | twice-custom: ApplyPreset is called twice with the same spec object on one UConn before the handshake.
+	Mode string `json:"mode"`
 	N    int    `json:"n"`
 	K    int    `json:"k"` // constrand: reads of exactly k bytes are constant; connection j uses byte value (b0 + j)
 	B0   int    `json:"b0"`
@@ -158,7 +163,7 @@ func init() {
 			var spec tls.ClientHelloSpec
 			var fpErr string
 			switch c.Mode {
-			case "fingerprint":
+			case "fingerprint", "reuse-fp":
 				// capture one real hello of the parrot, import it with the fingerprinter, send it as HelloCustom
 				_, h0, _, _ := wireHello(func(cn *hlib.BufConn) *tls.UConn {
 					return tls.UClient(cn, &tls.Config{ServerName: c.SNI, OmitEmptyPsk: true}, id)
@@ -178,6 +183,9 @@ func init() {
 				if err != nil {
 					return err
 				}
+				if c.Mode == "reuse-custom" {
+					deplaceholder(&spec)
+				}
 			}
 			line++
 			g := line
@@ -189,12 +197,45 @@ func init() {
 				continue
 			}
 			res := make([]map[string]any, c.N)
-			hlib.Parallel(c.N, func(j int) {
+			shared := c.Mode == "reuse-id" || c.Mode == "reuse-fp" || c.Mode == "reuse-custom"
+			run := hlib.Parallel
+			if shared { // the connections share mutable extension objects: strictly one after the other
+				run = func(n int, fn func(int)) {
+					for j := 0; j < n; j++ {
+						fn(j)
+					}
+				}
+			}
+			run(c.N, func(j int) {
 				cfg := &tls.Config{ServerName: c.SNI, OmitEmptyPsk: true}
 				if c.Mode == "constrand" {
 					cfg.Rand = &constReader{B: byte(c.B0 + j), K: c.K}
 				}
 				u, hello, herr, pn := wireHello(func(cn *hlib.BufConn) *tls.UConn {
+					if shared {
+						u := tls.UClient(cn, cfg, tls.HelloCustom)
+						if err := u.ApplyPreset(&spec); err != nil {
+							return nil
+						}
+						return u
+					}
+					if c.Mode == "twice" || c.Mode == "twice-custom" {
+						sp, err := tls.UTLSIdToSpec(id)
+						if err != nil {
+							return nil
+						}
+						if c.Mode == "twice-custom" {
+							deplaceholder(&sp)
+						}
+						u := tls.UClient(cn, cfg, tls.HelloCustom)
+						if err := u.ApplyPreset(&sp); err != nil {
+							return nil
+						}
+						if err := u.ApplyPreset(&sp); err != nil {
+							return nil
+						}
+						return u
+					}
 					if c.Mode == "fingerprint" {
 						sp, err := (&tls.Fingerprinter{AllowBluntMimicry: true}).FingerprintClientHello(helloRecord(mustHello(c.SNI, id)))
 						if err != nil {
@@ -231,4 +272,39 @@ func mustHello(sni string, id tls.ClientHelloID) []byte {
 		return tls.UClient(cn, &tls.Config{ServerName: sni, OmitEmptyPsk: true}, id)
 	})
 	return h
+}
+
+// deplaceholder replaces every GREASE placeholder of a spec by another value of the reserved space (a caller may
+// write any 0x?A?A value; ApplyPreset documents "just in case the user set a GREASE value instead of unGREASEd").
+func deplaceholder(spec *tls.ClientHelloSpec) {
+	alt := []uint16{0x1a1a, 0x2a2a, 0x3a3a, 0x4a4a, 0x5a5a}
+	for i, v := range spec.CipherSuites {
+		if isGrease(v) {
+			spec.CipherSuites[i] = alt[0]
+		}
+	}
+	for _, e := range spec.Extensions {
+		switch x := e.(type) {
+		case *tls.SupportedCurvesExtension:
+			for i, v := range x.Curves {
+				if isGrease(uint16(v)) {
+					x.Curves[i] = tls.CurveID(alt[1])
+				}
+			}
+		case *tls.KeyShareExtension:
+			for i := range x.KeyShares {
+				if isGrease(uint16(x.KeyShares[i].Group)) {
+					x.KeyShares[i].Group = tls.CurveID(alt[2])
+				}
+			}
+		case *tls.SupportedVersionsExtension:
+			for i, v := range x.Versions {
+				if isGrease(v) {
+					x.Versions[i] = alt[3]
+				}
+			}
+		case *tls.UtlsGREASEExtension:
+			x.Value = alt[4]
+		}
+	}
 }
